@@ -26,11 +26,41 @@ func otPairCase(o *hxlib.Out, impl string, idx int, replay, cfg, transport strin
 		in    []ot.Wire
 		wires []ot.Wire
 		rcvd  []ot.Label
+		out   []ot.Label // the slice handed to Receive
+		bufcl string
 	}
 	bs := make([]br, len(sizes))
+	// the receiver's result buffers (oracle only, no model): fresh, the array
+	// of the previous batch, or a window of a new array of ones / random bytes
+	var prev []ot.Label
 	for i, n := range sizes {
 		bs[i].flags, bs[i].ck = genChoices(r, n)
 		bs[i].in = genWires(r, n)
+		switch k := r.Intn(6); {
+		case k < 2:
+			bs[i].out, bs[i].bufcl = make([]ot.Label, n), "fresh"
+		case k == 2 && len(prev) >= n:
+			bs[i].out, bs[i].bufcl = prev[len(prev)-n:], "kept"
+		default:
+			a := make([]ot.Label, n+r.Intn(4))
+			fill := r.Bytes(16 * len(a))
+			bs[i].bufcl = "random"
+			if k == 3 {
+				bs[i].bufcl = "ones"
+				for j := range fill {
+					fill[j] = 0xff
+				}
+			}
+			for j := range a {
+				a[j].SetBytes(fill[16*j : 16*j+16])
+			}
+			off := r.Intn(len(a) - n + 1)
+			bs[i].out = a[off : off+n]
+			prev = a
+		}
+		if bs[i].bufcl == "fresh" {
+			prev = bs[i].out
+		}
 	}
 	fs := func() error {
 		if err := snd.InitSender(l.s); err != nil {
@@ -50,11 +80,11 @@ func otPairCase(o *hxlib.Out, impl string, idx int, replay, cfg, transport strin
 			return fmt.Errorf("InitReceiver: %v", err)
 		}
 		for i := range bs {
-			out := make([]ot.Label, len(bs[i].flags))
+			out := bs[i].out
 			if err := rcv.Receive(bs[i].flags, out); err != nil {
 				return fmt.Errorf("batch %d Receive: %v", i, err)
 			}
-			bs[i].rcvd = out
+			bs[i].rcvd = append([]ot.Label(nil), out...)
 		}
 		return nil
 	}
@@ -66,7 +96,8 @@ func otPairCase(o *hxlib.Out, impl string, idx int, replay, cfg, transport strin
 		return
 	}
 	for i := range bs {
-		oracleDelivers(o, impl, idx, replay, i, cfg, bs[i].flags, bs[i].wires, bs[i].rcvd, bs[i].ck)
+		oracleDelivers(o, impl, idx, replay, i, cfg+" result_buffer="+bs[i].bufcl, bs[i].flags, bs[i].wires, bs[i].rcvd, bs[i].ck)
+		o.Count(impl + "_buf_" + bs[i].bufcl)
 		countSize(o, impl, len(bs[i].flags))
 		if !rot {
 			for j := range bs[i].in {
